@@ -4,6 +4,8 @@
      tmpl, env, status, restart     the case (template structure, passed variables, requested exit status)
      ran, argv                      the command started and dumped / its arguments (code points)
      envseen                        per passed variable, the values found under its name in the environment
+     ambient, ambseen               what the harness put into the server process's own environment before the
+                                    command was started / the values found under those names in the command's
      onexit                         the calls of OnExit until the harness closed the command
    TLC evaluates the statement's formula (ExtCmd.tla layer 2) on every record; records that differ from
    layer 1 (split, then os.Expand; exit code reported, or the deviation selected by L1Variant) are DRIFT.                                    *)
@@ -12,7 +14,7 @@ EXTENDS ExtCmd
 Trace == ndJsonDeserialize("C21_trace.ndjson")
 
 VARIABLE l
-TraceInit == l = 0 /\ fam = "one" /\ first = PieceList[1] /\ prof = 1 /\ done = FALSE
+TraceInit == l = 0 /\ fam = "one" /\ first = PieceList[1] /\ prof = 1 /\ amb = "clean" /\ done = FALSE
 TraceNext == l < Len(Trace) /\ l' = l + 1 /\ UNCHANGED vars
 TraceSpec == TraceInit /\ [][TraceNext]_<<l, vars>>
 
@@ -20,10 +22,11 @@ FirstNums(r) == IF r.onexit = <<>> THEN <<>> ELSE r.onexit[1].nums
 L1Conforms(r) ==
     /\ r.argv = r.l1                    \* L1Argv(tmpl, env), computed by TLC when the case was generated
     /\ FirstNums(r) = L1OnExit(r.status, r.restart)
+    /\ (~r.ran \/ InheritedKept(r))
 
 Verdicts ==
     l >= 1 => LET r == Trace[l]  f == Failing(r) IN
-              /\ Monitor(f = {}, [l |-> l, monitors |-> f, badargs |-> ArgValueBad(r), badenv |-> EnvBad(r),
+              /\ Monitor(f = {}, [l |-> l, monitors |-> f, badargs |-> ArgValueBad(r), badenv |-> EnvBad(r), inheritedwins |-> EnvInheritedWins(r),
                                    deviation |-> DeviationOf(FirstNums(r), r.status, r.restart)])
               /\ (L1Conforms(r) \/ Emit("DRIFT", [l |-> l]))
 Accepted == TLCGet("stats").diameter - 1 = Len(Trace)
